@@ -1,9 +1,13 @@
 """C10 half (b), round trip — the tie of the print-then-parse theorem to the implementation.
 
 The theorem being proved (C10/YpRoundSpec.v, YpRound*.v) says: for every abstract grammar `ag`
-and layout `lay` with `wf_agram ag` and `wf_layout lay ag`
+and layout `lay` with `wf_agram k ag` and `wf_layout lay ag`
 
-    run_case true fa KOriginal (print lay ag) = Done (TResult (ast_of fa lay ag) [] (warnings_of fa lay ag))
+    run_case true fa k (print lay ag) = Done (TResult (ast_of fa lay ag) [] (warnings_of fa lay ag))
+
+for each of the three dialects k (Original, Grmtools: every rule block carries `-> type`; Eco: %implicit_tokens) and
+every declaration kind (%start %token %left/%right/%nonassoc %epp %avoid_insert %expect %expect-rr %actiontype
+%parse-param %parse-generics %expect-unused %implicit_tokens) plus the programs section.
 
 This check makes that statement speak about /repo.  Random (ag, lay) pairs that satisfy the
 hypotheses (checked here by an independent Python implementation of wf_agram / wf_layout:
@@ -17,6 +21,10 @@ a generator bug is an assertion failure, never a violation) and use all the free
  (d) parsed by the extracted Coq mirror of the parser (ocaml/c10yp, repaired comment scanner):
      its transcript must be the expected one too — that is the theorem's statement itself,
      evaluated on the pair; a difference there means the statement is false for that pair.
+ (e) the witnesses of the `_refuted` theorems (what the code drops without an error, outside the hypotheses:
+     FINDING_PROBES) are replayed on the implementation and on the mirror.
+The dialect is handed to the parser through the API (ASTWithValidityInfo::new(kind, text)), as the harness does; a
+`%grmtools{..}` section in the text is the domain of the header mirror (C12).
 """
 from vlib import core
 from checks.c10_parser import strip_bad, badspans_are_action_spans
@@ -83,7 +91,45 @@ def layout_text(s):
 
 
 def line_gap(s):
-    return layout_text(s) and count_nl(s) == 0
+    """YpSpec.line_layout: blanks, block comments without newline, line comments (with their newline)"""
+    items = layout_items(s)
+    return items is not None and all(k == "line" or count_nl(t) == 0 for k, t in items)
+
+
+def nl_gap(s):
+    return layout_text(s) and s[:1] in ("\n", "\r")
+
+
+def first_ok(c):
+    return c not in " \t\n\r/"
+
+
+def item_start(s):
+    return s == "" or first_ok(s[0])
+
+
+def colon_scan(t):
+    i = 0
+    while i < len(t):
+        if t[i] == ":":
+            if i + 1 < len(t) and t[i + 1] == ":":
+                i += 2
+                continue
+            return False
+        i += 1
+    return True
+
+
+def trimmed(t):
+    return t == "" or (t[0] not in WSSET and t[-1] not in WSSET)
+
+
+def wf_rtype(t):
+    return trimmed(t) and colon_scan(t)
+
+
+def wf_eol_text(t):
+    return t != "" and first_ok(t[0]) and "\n" not in t and "\r" not in t
 
 
 def is_qname(q, n):
@@ -190,7 +236,7 @@ def wf_layout(lay, ag):
             if not x[1]:
                 why.append("decl %d empty list" % d)
             why += wf_toks(lay, d, x[1], any_gap, any_gap)
-        elif k in ("P", "A"):
+        elif k in ("P", "A", "I"):
             ts = x[2] if k == "P" else x[1]
             if not ts:
                 why.append("decl %d empty list" % d)
@@ -209,13 +255,41 @@ def wf_layout(lay, ag):
         elif k in ("X", "Y"):
             if not wf_numeral(lay.T(1, d, 0), x[1]) or not layout_text(lay.G(1, d, 1)):
                 why.append("decl %d %%expect" % d)
+        elif k in ("C", "G"):
+            if not wf_eol_text(x[1]) or not nl_gap(lay.G(1, d, 1)):
+                why.append("decl %d %s value %r / gap %r" % (d, k, x[1], lay.G(1, d, 1)))
+        elif k == "M":
+            n, t, pad, g1 = x[1], x[2], lay.T(1, d, 0), lay.G(1, d, 1)
+            if not wf_rtype(n) or not wf_pad(pad) or not item_start(n + pad + ":"):
+                why.append("decl %d %%parse-param name %r pad %r" % (d, n, pad))
+            if not line_gap(g1) or (g1 + t)[:1] == ":" or not wf_eol_text(t) or not nl_gap(lay.G(1, d, 2)):
+                why.append("decl %d %%parse-param type %r" % (d, t))
+        elif k == "U":
+            ss = x[1]
+            if not ss:
+                why.append("decl %d empty list" % d)
+            for i, (kind, n) in enumerate(ss):
+                g = lay.G(1, d, i + 1)
+                if kind == "r":
+                    if not is_name(n):
+                        why.append("decl %d %%expect-unused rule name %r" % (d, n))
+                    if i + 1 < len(ss) and ss[i + 1][0] == "r" and g == "":
+                        why.append("decl %d %%expect-unused: two bare names not separated" % d)
+                elif lay.Q(1, d, i) == "b" or not is_qname(lay.Q(1, d, i), n):
+                    why.append("decl %d %%expect-unused token %r spelled %s" % (d, n, lay.Q(1, d, i)))
+                if not layout_text(g):
+                    why.append("decl %d %%expect-unused gap %d" % (d, i + 1))
         else:
             why.append("decl %d unknown kind" % d)
-    for r, (rn, prods) in enumerate(ag["rules"]):
+    for r, (rn, prods, ty) in enumerate(ag["rules"]):
         if not is_name(rn):
             why.append("rule %d name" % r)
         if not layout_text(lay.G(3, r, 0)) or not layout_text(lay.G(3, r, 1)):
             why.append("rule %d head gaps" % r)
+        if ty is not None:
+            pad = lay.T(3, r, 3)
+            if not layout_text(lay.G(3, r, 2)) or not wf_rtype(ty) or not wf_pad(pad) or not item_start(ty + pad + ":"):
+                why.append("rule %d action type %r pad %r" % (r, ty, pad))
         if not prods:
             why.append("rule %d has no production" % r)
         for p, pr in enumerate(prods):
@@ -246,45 +320,70 @@ def wf_layout(lay, ag):
                 why.append("rule %d prod %d gap after %%empty" % (r, p))
             if not layout_text(lay.G(4, r, p, 5)):
                 why.append("rule %d prod %d gap after the terminator" % (r, p))
+    if ag["programs"] is not None:
+        pg = ag["programs"]
+        solid = pg == "" or (pg[0] not in " \t\n\r" and not (pg[0] == "/" and pg[1:2] in ("/", "*")))
+        if not layout_text(lay.G(5)) or not solid:
+            why.append("programs section")
     return why
 
 
 def wf_agram(ag):
     why = []
     ds = ag["decls"]
-    for k in "SXY":
+    kind = ag["kind"]
+    for k in "SXYCMG":
         if sum(1 for x in ds if x[0] == k) > 1:
             why.append("more than one %s declaration" % k)
+    if kind != "O" and any(x[0] == "C" for x in ds):
+        why.append("%actiontype outside the Original dialect")
+    if kind != "E" and any(x[0] == "I" for x in ds):
+        why.append("%implicit_tokens outside the Eco dialect")
+    types = {}
+    for rn, _, ty in ag["rules"]:
+        if (ty is not None) != (kind == "G"):
+            why.append("rule %r: action type %r in dialect %s" % (rn, ty, kind))
+        if types.setdefault(rn, ty) != ty:
+            why.append("blocks of rule %r disagree on the action type" % rn)
     precs = [t for x in ds if x[0] == "P" for t in x[2]]
     epps = [x[1] for x in ds if x[0] == "E"]
     avoid = [t for x in ds if x[0] == "A" for t in x[1]]
     toks = [t for x in ds if x[0] == "T" for t in x[1]]
-    for nm, l in (("precedence", precs), ("%epp", epps), ("%avoid_insert", avoid)):
+    implicit = [t for x in ds if x[0] == "I" for t in x[1]]
+    for nm, l in (("precedence", precs), ("%epp", epps), ("%avoid_insert", avoid), ("%implicit_tokens", implicit)):
         if len(set(l)) != len(l):
             why.append("duplicate %s token" % nm)
     if not ag["rules"]:
         why.append("no rule")
-    rnames = set(n for n, _ in ag["rules"])
+    rnames = set(n for n, _, _ in ag["rules"])
     for x in ds:
         if x[0] == "S":
             if x[1] not in rnames:
                 why.append("%start names no rule")
             break
     rtn = set()
-    for _, prods in ag["rules"]:
+    for _, prods, _ in ag["rules"]:
         for pr in prods:
-            for kind, n in pr["syms"]:
-                if kind == "r" and n not in rnames:
+            for skind, n in pr["syms"]:
+                if skind == "r" and n not in rnames:
                     why.append("unresolved rule reference %r" % n)
-                if kind == "t":
+                if skind == "t":
                     rtn.add(n)
             if pr["prec"] is not None:
                 rtn.add(pr["prec"])
                 if pr["prec"] not in precs:
                     why.append("%%prec token %r has no precedence" % pr["prec"])
+    known = set(toks) | set(avoid) | set(implicit) | rtn
     for t in epps:
-        if t not in toks and t not in avoid and t not in rtn:
+        if t not in known:
             why.append("%%epp key %r is no token" % t)
+    for x in ds:
+        if x[0] == "U":
+            for skind, n in x[1]:
+                if skind == "r" and n not in rnames:
+                    why.append("%%expect-unused names no rule: %r" % n)
+                if skind == "t" and n not in known:
+                    why.append("%%expect-unused names no token: %r" % n)
     return why
 
 
@@ -301,11 +400,13 @@ def py_print(ag, lay):
         k = x[0]
         if k == "S":
             o += ["%start", lay.G(1, d, 0), x[1], lay.G(1, d, 1)]
-        elif k in ("T", "P", "A"):
+        elif k in ("T", "P", "A", "I"):
             if k == "T":
                 kw, ts = "%token", x[1]
             elif k == "A":
                 kw, ts = "%avoid_insert", x[1]
+            elif k == "I":
+                kw, ts = "%implicit_tokens", x[1]
             else:
                 kw, ts = {"L": "%left", "R": "%right", "N": "%nonassoc"}[x[1]], x[2]
             o += [kw, lay.G(1, d, 0)]
@@ -314,11 +415,22 @@ def py_print(ag, lay):
         elif k == "E":
             qc = QCH[lay.Q(1, d, 1)]
             o += ["%epp", lay.G(1, d, 0), spell(lay.Q(1, d, 0), x[1]), lay.G(1, d, 1), qc, lay.T(1, d, 0), qc, lay.G(1, d, 2)]
+        elif k in ("C", "G"):
+            o += ["%actiontype" if k == "C" else "%parse-generics", lay.G(1, d, 0), x[1], lay.G(1, d, 1)]
+        elif k == "M":
+            o += ["%parse-param", lay.G(1, d, 0), x[1], lay.T(1, d, 0), ":", lay.G(1, d, 1), x[2], lay.G(1, d, 2)]
+        elif k == "U":
+            o += ["%expect-unused", lay.G(1, d, 0)]
+            for i, (kind, n) in enumerate(x[1]):
+                o += [spell("b" if kind == "r" else lay.Q(1, d, i), n), lay.G(1, d, i + 1)]
         else:
             o += ["%expect" if k == "X" else "%expect-rr", lay.G(1, d, 0), lay.T(1, d, 0), lay.G(1, d, 1)]
     o += ["%%", lay.G(2)]
-    for r, (rn, prods) in enumerate(ag["rules"]):
-        o += [rn, lay.G(3, r, 0), ":", lay.G(3, r, 1)]
+    for r, (rn, prods, ty) in enumerate(ag["rules"]):
+        o += [rn, lay.G(3, r, 0)]
+        if ty is not None:
+            o += ["->", lay.G(3, r, 2), ty, lay.T(3, r, 3)]
+        o += [":", lay.G(3, r, 1)]
         for p, pr in enumerate(prods):
             if lay.F(4, r, p) and not pr["syms"]:
                 o += ["%empty", lay.G(4, r, p, 4)]
@@ -329,6 +441,8 @@ def py_print(ag, lay):
             if pr["action"] is not None:
                 o += ["{", lay.T(4, r, p, 6), pr["action"], lay.T(4, r, p, 7), "}", lay.G(4, r, p, 3)]
             o += ["|" if p + 1 < len(prods) else ";", lay.G(4, r, p, 5)]
+    if ag["programs"] is not None:
+        o += ["%%", lay.G(5), ag["programs"]]
     return "".join(o)
 
 
@@ -345,8 +459,16 @@ def encode(fa, ag, lay):
         k = x[0]
         if k == "S":
             w += ["S", xs(x[1])]
-        elif k in ("T", "A"):
+        elif k in ("T", "A", "I"):
             w += [k, str(len(x[1]))] + [xs(t) for t in x[1]]
+        elif k in ("C", "G"):
+            w += [k, xs(x[1])]
+        elif k == "M":
+            w += ["M", xs(x[1]), xs(x[2])]
+        elif k == "U":
+            w += ["U", str(len(x[1]))]
+            for kind, n in x[1]:
+                w += [kind, xs(n)]
         elif k == "P":
             w += [x[1], str(len(x[2]))] + [xs(t) for t in x[2]]
         elif k == "E":
@@ -354,14 +476,15 @@ def encode(fa, ag, lay):
         else:
             w += [k, "%x" % x[1]]
     w.append(str(len(ag["rules"])))
-    for rn, prods in ag["rules"]:
-        w += ["r", xs(rn), str(len(prods))]
+    for rn, prods, ty in ag["rules"]:
+        w += ["r", xs(rn)] + (["-"] if ty is None else ["^", xs(ty)]) + [str(len(prods))]
         for pr in prods:
             w += ["p", str(len(pr["syms"]))]
             for kind, n in pr["syms"]:
                 w += [kind, xs(n)]
             w += ["-"] if pr["prec"] is None else ["%", xs(pr["prec"])]
             w += ["-"] if pr["action"] is None else ["{", xs(pr["action"])]
+    w += ["-"] if ag["programs"] is None else ["P", xs(ag["programs"])]
     ents = []
     pth = lambda p: ".".join(str(i) for i in p) if p else "-"
     for p, v in sorted(lay.g.items()):
@@ -390,6 +513,13 @@ ACTION_PIECES = ["$1", "Ok(())", " ", "  ", "\n", "\r\n", "\r", "\t", "\u00e9", 
                  "//", "%%", "|", ";", ":", "%prec", "%empty", "\\", "\xa0", "\u2003", "\u3000", "x", "a b", "$lexer.span()"]
 EPP_PIECES = ["x", "an integer", "\u00e9", "it's", 'say "hi"', "\u2192", "'", '"', "''", '"\'', "%", "/* c */", "// c",
               "\U0001F600", " ", "\t", "{", "%%", "\xa0"]
+TYPE_PIECES = ["u64", "()", "Result<u64, ()>", "std::vec::Vec<u8>", "::", "a::b", "Foo<'a>", "&'static str", "T", " ", "  ", "\t",
+               "\n", "\r\n", "/* t */", "// t", "/", "*", "{", "}", "%%", "%token", ";", "|", "->", "'", '"', "\u00e9", "\u2192",
+               "\U0001F600", "\xa0", "\u3000", "Box<dyn Fn(u8) -> u8>", "[u8; 4]", "(A, B)"]
+EOL_PIECES = ["u64", "Span", "&mut Vec<u8>", "T: Clone", ":", "::", " ", "  ", "\t", "/* c */", "// c", "/*", "*/", "%%", "%token x", "'a", '"',
+              "{", "}", ";", "|", "<'a, T>", "\u00e9", "\u2192", "\U0001F600", "\xa0", "\u2028", "\x0b", "x"]
+PROG_PIECES = ["fn main() {}", "\n", " ", "%%", "%token", "// c\n", "/* c */", "A: 'a';", "\u00e9", "\U0001F600", "{", "}", "'", '"', "\r\n",
+               "\x00", "/", "*"]
 NUMS = [0, 0, 1, 7, 42, 2 ** 32, 2 ** 63, U64MAX, U64MAX - 1, 12345678901234567890]
 
 
@@ -457,21 +587,26 @@ def comment_body(rng, newline_ok):
 
 
 def gen_gap(rng, mode="any", nonempty=False):
-    """layout text; mode: any | line (no newline character at all) | eol (at least one)"""
+    """layout text; mode: any | line (a line layout: the only newline characters are those ending // comments;
+    line0: none at all) | eol (at least one) | nl (starts with a newline character)"""
+    if mode == "nl":
+        return rng.choice(["\n", "\n", "\r\n", "\r"]) + gen_gap(rng)
     if mode != "eol" and not nonempty and rng.random() < 0.4:
         return ""
+    line = mode in ("line", "line0")
     out = []
     for _ in range(rng.choice([1, 1, 1, 2, 2, 3, 4])):
         k = rng.random()
         if k < 0.5:
-            out.append(rng.choice([" ", " ", "\t", "  "]) if mode == "line" or rng.random() < 0.6
+            out.append(rng.choice([" ", " ", "\t", "  "]) if line or rng.random() < 0.6
                        else rng.choice(["\n", "\n", "\r\n", "\r", "\n\n"]))
-        elif k < 0.68 and mode != "line":
-            out.append("//" + comment_body(rng, False) + rng.choice(["\n", "\n", "\r\n", "\r"]))
+        elif k < 0.68 and mode != "line0":
+            # in a line layout the newline of a // comment is consumed by the comment itself: one character only
+            out.append("//" + comment_body(rng, False) + (rng.choice(["\n", "\n", "\r"]) if line else rng.choice(["\n", "\n", "\r\n", "\r"])))
         elif k < 0.68:
             out.append(" ")
         else:
-            out.append("/*" + comment_body(rng, mode != "line") + "*/")
+            out.append("/*" + comment_body(rng, not line) + "*/")
     if mode == "eol" and count_nl("".join(out)) == 0:
         k = rng.random()
         nl = rng.choice(["\n", "\r\n", "\r"])
@@ -503,6 +638,55 @@ def gen_action(rng):
     return seq(0).strip("".join(WS))
 
 
+def gen_rtype(rng):
+    """an action type / %parse-param name: trimmed, every ':' inside a '::' pair, not starting like layout"""
+    if rng.random() < 0.04:
+        return ""
+    for _ in range(100):
+        t = "".join(piece(rng, TYPE_PIECES, 0.08) for _ in range(rng.choice([1, 1, 1, 2, 2, 3, 4])))
+        t = t.strip("".join(WS))
+        # make single colons double
+        out, i = [], 0
+        while i < len(t):
+            if t[i] == ":":
+                out.append("::")
+                i += 2 if t[i + 1:i + 2] == ":" else 1
+            else:
+                out.append(t[i])
+                i += 1
+        t = "".join(out)
+        if wf_rtype(t) and (t == "" or first_ok(t[0])):
+            return t
+    raise AssertionError("type generator exhausted")
+
+
+def gen_tpad(rng, t):
+    """blanks between a type/name and its colon: any Unicode white space (when the text is empty the gap before it
+    must not swallow them: no leading layout blank)"""
+    for _ in range(100):
+        pad = gen_pad(rng)
+        if item_start(t + pad + ":"):
+            return pad
+    return ""
+
+
+def gen_eol_text(rng):
+    """a value read to the end of the line (kept verbatim: trailing blanks and comments belong to it)"""
+    for _ in range(100):
+        t = "".join(piece(rng, EOL_PIECES, 0.1) for _ in range(rng.choice([1, 1, 2, 2, 3, 4]))).replace("\n", "").replace("\r", "")
+        if wf_eol_text(t):
+            return t
+    raise AssertionError("value generator exhausted")
+
+
+def gen_programs(rng):
+    for _ in range(100):
+        pg = "".join(piece(rng, PROG_PIECES, 0.1) for _ in range(rng.choice([0, 1, 1, 2, 3, 5])))
+        if pg == "" or (pg[0] not in " \t\n\r" and not (pg[0] == "/" and pg[1:2] in ("/", "*"))):
+            return pg
+    return ""
+
+
 def gen_epp_value(rng):
     v = "".join(piece(rng, EPP_PIECES) for _ in range(rng.choice([0, 1, 1, 2, 3])))
     return v.replace("\\", "").replace("\n", "").replace("\r", "")
@@ -519,9 +703,11 @@ def styles_for(n):
     return s
 
 
-def random_agram(rng):
+def random_agram(rng, kind=None):
     used = set()
-    full = rng.random() < 0.2                      # every declaration kind present
+    if kind is None:
+        kind = rng.choice("OOGGE")
+    full = rng.random() < 0.2                      # every declaration kind (of the dialect) present
     P = lambda p: full or rng.random() < p
     # ---- rule names
     big = rng.random() < 0.03                     # now and then a large grammar
@@ -581,6 +767,17 @@ def random_agram(rng):
             ts = [pool.pop() for _ in range(rng.randint(1, min(3, len(pool))))]
             avoid += ts
             decls.append(("A", ts))
+    # ---- %implicit_tokens lines (Eco dialect)
+    implicit = []
+    if kind == "E" and P(0.6):
+        pool = all_toks[:] + [gen_ident(rng, used), gen_special(rng, used)]
+        rng.shuffle(pool)
+        for _ in range(rng.choice([1, 1, 2])):
+            if not pool:
+                break
+            ts = [pool.pop() for _ in range(rng.randint(1, min(3, len(pool))))]
+            implicit += ts
+            decls.append(("I", ts))
     # ---- rule blocks
     blocks = rnames + dotted
     if rng.random() < 0.5:
@@ -589,7 +786,10 @@ def random_agram(rng):
         blocks.insert(rng.randint(1, len(blocks)), rng.choice(blocks))
     rules = []
     rtn = set()
+    rtypes = {}
     for rn in blocks:
+        if kind == "G" and rn not in rtypes:
+            rtypes[rn] = gen_rtype(rng)
         prods = []
         for _ in range(rng.choice([1, 1, 2, 2, 3, 4])):
             syms = []
@@ -605,11 +805,11 @@ def random_agram(rng):
                 rtn.add(prec)
             action = gen_action(rng) if rng.random() < 0.45 else None
             prods.append({"syms": syms, "prec": prec, "action": action})
-        rules.append((rn, prods))
+        rules.append((rn, prods, rtypes.get(rn)))
     # ---- the other declarations
     if P(0.5):
         decls.append(("S", rng.choice(rnames + dotted)))
-    known = list(dict.fromkeys(declared + avoid + sorted(rtn)))
+    known = list(dict.fromkeys(declared + avoid + implicit + sorted(rtn)))
     if known and P(0.55):
         for t in rng.sample(known, rng.randint(1, min(3, len(known)))):
             decls.append(("E", t, gen_epp_value(rng)))
@@ -617,8 +817,24 @@ def random_agram(rng):
         decls.append(("X", rng.choice(NUMS) if rng.random() < 0.7 else rng.getrandbits(rng.choice([8, 33, 64]))))
     if P(0.3):
         decls.append(("Y", rng.choice(NUMS) if rng.random() < 0.7 else rng.getrandbits(rng.choice([8, 33, 64]))))
+    if kind == "O" and P(0.4):
+        decls.append(("C", gen_eol_text(rng)))
+    if P(0.35):
+        decls.append(("M", gen_rtype(rng), gen_eol_text(rng)))
+    if P(0.3):
+        decls.append(("G", gen_eol_text(rng)))
+    if P(0.4):
+        for _ in range(rng.choice([1, 1, 2])):
+            ss = []
+            for _ in range(rng.choice([1, 1, 2, 3, 4])):
+                if known and rng.random() < 0.5:
+                    ss.append(("t", rng.choice(known)))
+                else:
+                    ss.append(("r", rng.choice(rnames + dotted)))
+            decls.append(("U", ss))
     rng.shuffle(decls)
-    return {"decls": decls, "rules": rules}
+    programs = gen_programs(rng) if rng.random() < 0.3 else None
+    return {"kind": kind, "decls": decls, "rules": rules, "programs": programs}
 
 
 def gen_toks_layout(rng, lay, d, ts, inner_mode, last_mode):
@@ -644,9 +860,26 @@ def random_layout(rng, ag):
         elif k == "T":
             gen_toks_layout(rng, lay, d, x[1], "any", "any")
         elif k == "P":
-            gen_toks_layout(rng, lay, d, x[2], "line", "eol")
-        elif k == "A":
-            gen_toks_layout(rng, lay, d, x[1], "line", "eol")
+            gen_toks_layout(rng, lay, d, x[2], "line0", "eol")
+        elif k in ("A", "I"):
+            gen_toks_layout(rng, lay, d, x[1], "line0", "eol")
+        elif k in ("C", "G"):
+            lay.g[(1, d, 1)] = gen_gap(rng, "nl")
+        elif k == "M":
+            lay.t[(1, d, 0)] = gen_tpad(rng, x[1])
+            g1 = gen_gap(rng, "line")
+            if (g1 + x[2])[:1] == ":":
+                g1 = " " + g1
+            lay.g[(1, d, 1)] = g1
+            lay.g[(1, d, 2)] = gen_gap(rng, "nl")
+        elif k == "U":
+            ss = x[1]
+            for i, (kind, n) in enumerate(ss):
+                if kind == "t":
+                    lay.q[(1, d, i)] = rng.choice([q for q in styles_for(n) if q != "b"])
+                elif rng.random() < 0.2:
+                    lay.q[(1, d, i)] = rng.choice("bsd")                     # ignored for rule names
+                lay.g[(1, d, i + 1)] = gen_gap(rng, nonempty=(kind == "r" and i + 1 < len(ss) and ss[i + 1][0] == "r"))
         elif k == "E":
             lay.q[(1, d, 0)] = rng.choice(styles_for(x[1]))
             lay.g[(1, d, 1)] = gen_gap(rng, "line")
@@ -657,9 +890,15 @@ def random_layout(rng, ag):
         else:
             lay.t[(1, d, 0)] = "0" * rng.choice([0, 0, 0, 1, 2, 5, 25]) + str(x[1])
             lay.g[(1, d, 1)] = gen_gap(rng)
-    for r, (rn, prods) in enumerate(ag["rules"]):
+    for r, (rn, prods, ty) in enumerate(ag["rules"]):
         lay.g[(3, r, 0)] = gen_gap(rng)
         lay.g[(3, r, 1)] = gen_gap(rng)
+        if ty is not None:
+            lay.g[(3, r, 2)] = gen_gap(rng)
+            lay.t[(3, r, 3)] = gen_tpad(rng, ty)
+        elif rng.random() < 0.1:
+            lay.g[(3, r, 2)] = "unused->"
+            lay.t[(3, r, 3)] = "unused:"
         for p, pr in enumerate(prods):
             syms = pr["syms"]
             sq = []
@@ -692,10 +931,12 @@ def random_layout(rng, ag):
             lay.f[(4, r, p)] = rng.random() < (0.5 if not syms else 0.2)   # ignored unless the production is empty
             lay.g[(4, r, p, 4)] = gen_gap(rng)                               # a layout text even when unused
             lay.g[(4, r, p, 5)] = gen_gap(rng)
+    if ag["programs"] is not None:
+        lay.g[(5,)] = gen_gap(rng)
     # entries on paths the printer never asks for
     for _ in range(rng.choice([0, 0, 1, 2])):
         k = rng.random()
-        p = rng.choice([(), (5,), (0, 0), (2, 0), (1, len(ag["decls"]), 0), (3, len(ag["rules"]), 1), (4, 0, 99, 5), (1,), (4, 0)])
+        p = rng.choice([(), (6,), (0, 0), (2, 0), (1, len(ag["decls"]), 0), (3, len(ag["rules"]), 1), (4, 0, 99, 5), (1,), (4, 0)])
         if k < 0.5:
             lay.g.setdefault(p, "stray/")
         elif k < 0.7:
@@ -708,15 +949,24 @@ def random_layout(rng, ag):
 
 
 # ---- corpus: one grammar with every construct under uniform layouts ----------------------------
-CORPUS_AG = {
-    "decls": [("T", ["a", "b c", "a"]), ("S", "A"), ("P", "L", ["+", "m"]), ("X", 0), ("A", ["a", "z"]), ("P", "N", ["u"]),
-              ("E", "a", "it's \"a\""), ("Y", U64MAX), ("T", ["d"]), ("A", ["w"]), ("E", "+", "")],
-    "rules": [("A", [{"syms": [("r", "A"), ("t", "+"), ("r", "B"), ("t", "a"), ("t", "d")], "prec": "m", "action": "$1 { {} }"},
-                     {"syms": [], "prec": None, "action": None},
-                     {"syms": [], "prec": "u", "action": ""}]),
-              ("B", [{"syms": [("t", "a"), ("t", "d"), ("t", "b c")], "prec": None, "action": None}]),
-              (".c.", [{"syms": [], "prec": None, "action": "\u00e9"}]),
-              ("A", [{"syms": [("r", "B"), ("r", "B")], "prec": None, "action": None}])]}
+def corpus_ag(kind):
+    ty = (lambda t: t) if kind == "G" else (lambda t: None)
+    decls = [("T", ["a", "b c", "a"]), ("S", "A"), ("P", "L", ["+", "m"]), ("X", 0), ("A", ["a", "z"]), ("P", "N", ["u"]),
+             ("E", "a", "it's \"a\""), ("Y", U64MAX), ("T", ["d"]), ("A", ["w"]), ("E", "+", ""),
+             ("M", "p::q", "&mut Vec<u8> // kept "), ("G", "'a, T: Clone"), ("U", [("r", "B"), ("t", "z"), ("r", ".c."), ("r", "A"), ("t", "b c")])]
+    if kind == "O":
+        decls.insert(3, ("C", "Result<u64, ()> /* kept */"))
+    if kind == "E":
+        decls.insert(5, ("I", ["ws", "d", "\u00e9"]))
+        decls.append(("E", "ws", "blank"))
+    return {
+        "kind": kind, "decls": decls, "programs": "fn f() {}\n%% /* not a comment */",
+        "rules": [("A", [{"syms": [("r", "A"), ("t", "+"), ("r", "B"), ("t", "a"), ("t", "d")], "prec": "m", "action": "$1 { {} }"},
+                         {"syms": [], "prec": None, "action": None},
+                         {"syms": [], "prec": "u", "action": ""}], ty("Result<u64, ()>")),
+                  ("B", [{"syms": [("t", "a"), ("t", "d"), ("t", "b c")], "prec": None, "action": None}], ty("std::vec::Vec<u8>")),
+                  (".c.", [{"syms": [], "prec": None, "action": "\u00e9"}], ty("")),
+                  ("A", [{"syms": [("r", "B"), ("r", "B")], "prec": None, "action": None}], ty("Result<u64, ()>"))]}
 CORPUS_GAPS = ["", " ", "\t", "\n", "\r\n", "\r", "/**/", "/*/*/", "/***/", "//\n", "//x\r", "/*\n/*/", "/* %% ' \" { */", "/*\u00e9\U0001F600*/",
                " /* a */ // b\r\n\t"]
 
@@ -727,10 +977,12 @@ def uniform_layout(ag, gap, prefer, pad, flag):
     lay = Lay()
     declared = set(t for x in ag["decls"] if x[0] == "T" for t in x[1])
     g_any = gap
-    g_line = gap if count_nl(gap) == 0 else gap.replace("//", "/*").replace("\r\n", "*/").replace("\n", "*/").replace("\r", "*/") \
+    g_line0 = gap if count_nl(gap) == 0 else gap.replace("//", "/*").replace("\r\n", "*/").replace("\n", "*/").replace("\r", "*/") \
         if gap.startswith("//") else ""
-    if not line_gap(g_line):
-        g_line = " "
+    if not line_gap(g_line0) or count_nl(g_line0):
+        g_line0 = " "
+    g_line = gap if line_gap(gap) else g_line0          # a // comment with its newline is a line layout
+    g_nl = gap if nl_gap(gap) else "\n" + gap
     g_eol = gap if count_nl(gap) >= 1 else gap + "\r"
     ne = lambda g: g if g else " "
     st = lambda n, bare_ok=True: [q for q in prefer if q in styles_for(n) and (q != "b" or bare_ok)][0]
@@ -741,13 +993,24 @@ def uniform_layout(ag, gap, prefer, pad, flag):
         lay.g[(1, d, 0)] = g_line
         if k == "S":
             lay.g[(1, d, 1)] = g_any
-        elif k in ("T", "P", "A"):
+        elif k in ("T", "P", "A", "I"):
             ts = x[-1]
             qs = [st(t) for t in ts]
             for i, t in enumerate(ts):
                 lay.q[(1, d, i)] = qs[i]
-                g = (g_any if k == "T" else g_line) if i + 1 < len(ts) else (g_any if k == "T" else g_eol)
+                g = (g_any if k == "T" else g_line0) if i + 1 < len(ts) else (g_any if k == "T" else g_eol)
                 lay.g[(1, d, i + 1)] = ne(g) if i + 1 < len(ts) and qs[i] == "b" and qs[i + 1] == "b" else g
+        elif k in ("C", "G"):
+            lay.g[(1, d, 1)] = g_nl
+        elif k == "M":
+            lay.t[(1, d, 0)] = pad if item_start(x[1] + pad + ":") else ""
+            lay.g[(1, d, 1)] = g_line
+            lay.g[(1, d, 2)] = g_nl
+        elif k == "U":
+            for i, (kind, n) in enumerate(x[1]):
+                if kind == "t":
+                    lay.q[(1, d, i)] = st(n, False)
+                lay.g[(1, d, i + 1)] = ne(g_any) if kind == "r" and i + 1 < len(x[1]) and x[1][i + 1][0] == "r" else g_any
         elif k == "E":
             lay.q[(1, d, 0)] = st(x[1])
             lay.g[(1, d, 1)] = g_line
@@ -758,9 +1021,12 @@ def uniform_layout(ag, gap, prefer, pad, flag):
         else:
             lay.t[(1, d, 0)] = ("00" if flag else "") + str(x[1])
             lay.g[(1, d, 1)] = g_any
-    for r, (rn, prods) in enumerate(ag["rules"]):
+    for r, (rn, prods, ty) in enumerate(ag["rules"]):
         lay.g[(3, r, 0)] = g_any
         lay.g[(3, r, 1)] = g_any
+        if ty is not None:
+            lay.g[(3, r, 2)] = g_any
+            lay.t[(3, r, 3)] = pad if item_start(ty + pad + ":") else ""
         for p, pr in enumerate(prods):
             sq = ["b" if kind == "r" else st(n, n in declared) for kind, n in pr["syms"]]
             for k, q in enumerate(sq):
@@ -777,16 +1043,22 @@ def uniform_layout(ag, gap, prefer, pad, flag):
             lay.f[(4, r, p)] = flag
             lay.g[(4, r, p, 4)] = g_any
             lay.g[(4, r, p, 5)] = g_any
+    if ag["programs"] is not None:
+        lay.g[(5,)] = g_any
     return lay
 
 
 def corpus():
     out = []
-    for i, g in enumerate(CORPUS_GAPS):
-        for prefer in ("bsd", "dsb", "sdb"):
-            out.append((CORPUS_AG, uniform_layout(CORPUS_AG, g, prefer, ["", " ", "\xa0\n", "\u3000"][i % 4], i % 2 == 0)))
-    minimal = {"decls": [], "rules": [("A", [{"syms": [], "prec": None, "action": None}])]}
-    out.append((minimal, Lay()))
+    for kind in "OGE":
+        ag = corpus_ag(kind)
+        for i, g in enumerate(CORPUS_GAPS):
+            for prefer in ("bsd", "dsb", "sdb"):
+                out.append((ag, uniform_layout(ag, g, prefer, ["", " ", "\xa0\n", "\u3000"][i % 4], i % 2 == 0)))
+    for kind in "OGE":
+        minimal = {"kind": kind, "decls": [], "programs": None,
+                   "rules": [("A", [{"syms": [], "prec": None, "action": None}], "T" if kind == "G" else None)]}
+        out.append((minimal, Lay()))
     return out
 
 
@@ -795,7 +1067,16 @@ def corpus():
 # =====================================================================================
 def account(ctx, ag, lay, text):
     c = ctx.count
-    kinds = {"S": "start", "T": "token", "P": "prec", "E": "epp", "A": "avoid_insert", "X": "expect", "Y": "expect_rr"}
+    kinds = {"S": "start", "T": "token", "P": "prec", "E": "epp", "A": "avoid_insert", "X": "expect", "Y": "expect_rr",
+             "C": "actiontype", "M": "parse_param", "G": "parse_generics", "U": "expect_unused", "I": "implicit_tokens"}
+    kname = {"O": "Original", "G": "Grmtools", "E": "Eco"}[ag["kind"]]
+    c("dialect_" + kname)
+    if ag["programs"] is not None:
+        c("programs_section")
+        if ag["programs"] == "":
+            c("programs_empty")
+        if "%%" in ag["programs"]:
+            c("programs_with_%%")
     seen_kinds = set()
     declared = set()
     toklines = 0
@@ -827,7 +1108,29 @@ def account(ctx, ag, lay, text):
             if "\\" + QCH[lay.Q(1, d, 1)] in b:
                 c("epp_own_quote_escaped")
             c("epp_key_style_" + lay.Q(1, d, 0))
-        if x[0] in "PA":
+        if x[0] in "CMG":
+            v = x[-1]
+            if v != v.rstrip():
+                c("eol_value_with_trailing_blanks")
+            if "/*" in v or "//" in v:
+                c("eol_value_with_comment_text")
+            if ":" in v:
+                c("eol_value_with_colon")
+            if not lay.G(1, d, 2 if x[0] == "M" else 1).startswith("\n"):
+                c("eol_value_ended_by_CR")
+        if x[0] == "M":
+            if "::" in x[1]:
+                c("parse_param_name_with_::")
+            if "\n" in x[1] or "\r" in x[1]:
+                c("parse_param_name_with_newline")
+            if lay.T(1, d, 0):
+                c("parse_param_blanks_before_colon")
+        if x[0] == "U":
+            for kind, n in x[1]:
+                c("expect_unused_" + ("rule" if kind == "r" else "token"))
+        if "//" in lay.G(1, d, 0) and line_gap(lay.G(1, d, 0)):
+            c("keyword_gap_with_line_comment (newline consumed inside a no-newline gap)")
+        if x[0] in "PAI":
             items = layout_items(lay.G(1, d, len(x[-1])))
             if all(count_nl(t) == 0 for k, t in items if k != "block"):
                 c("list_line_ended_by_newline_inside_block_comment")
@@ -835,8 +1138,8 @@ def account(ctx, ag, lay, text):
                 c("list_line_ended_by_CR_only")
             if len(x[-1]) >= 2 and any(lay.G(1, d, i) == "" for i in range(1, len(x[-1]))):
                 c("list_tokens_glued")
-    if len(seen_kinds) == 7:
-        c("all_seven_declaration_kinds")
+    if len(seen_kinds) == {"O": 11, "G": 10, "E": 11}[ag["kind"]]:
+        c("all_declaration_kinds_of_the_dialect")
     if toklines >= 2:
         c("several_token_lines")
     if sum(1 for x in ag["decls"] if x[0] == "P") >= 2:
@@ -845,7 +1148,24 @@ def account(ctx, ag, lay, text):
         c("several_avoid_insert_lines")
     if not any(x[0] == "S" for x in ag["decls"]):
         c("start_is_first_rule")
-    names = [n for n, _ in ag["rules"]]
+    names = [n for n, _, _ in ag["rules"]]
+    for r, (rn, _, ty) in enumerate(ag["rules"]):
+        if ty is not None:
+            c("rule_block_with_action_type")
+            if ty == "":
+                c("action_type_empty")
+            if "::" in ty:
+                c("action_type_with_::")
+            if "\n" in ty or "\r" in ty:
+                c("action_type_with_newline")
+            if "/*" in ty or "//" in ty:
+                c("action_type_with_comment_text")
+            if not ty.isascii():
+                c("action_type_multibyte")
+            if lay.T(3, r, 3):
+                c("action_type_blanks_before_colon")
+            if lay.G(3, r, 0) == "" and lay.G(3, r, 2) == "":
+                c("action_type_arrow_glued")
     if len(set(names)) < len(names):
         c("rule_written_in_several_blocks")
     if any("." in n for n in names):
@@ -853,7 +1173,7 @@ def account(ctx, ag, lay, text):
     if any(n in declared for n in names):
         c("rule_name_is_token_declared")
     precs = set(t for x in ag["decls"] if x[0] == "P" for t in x[2])
-    for r, (rn, prods) in enumerate(ag["rules"]):
+    for r, (rn, prods, _) in enumerate(ag["rules"]):
         for p, pr in enumerate(prods):
             if not pr["syms"]:
                 c("empty_production_with_%empty" if lay.F(4, r, p) else "empty_production_plain")
@@ -862,7 +1182,7 @@ def account(ctx, ag, lay, text):
             for k, (kind, n) in enumerate(pr["syms"]):
                 if kind == "r":
                     c("sym_rule_ref")
-                    if any(n == t for _, ps in ag["rules"] for q in ps for kk, t in q["syms"] if kk == "t"):
+                    if any(n == t for _, ps, _ in ag["rules"] for q in ps for kk, t in q["syms"] if kk == "t"):
                         c("rule_ref_name_is_also_a_token")
                 else:
                     c("sym_token_" + lay.Q(4, r, p, 0, k))
@@ -901,7 +1221,7 @@ def account(ctx, ag, lay, text):
                 if lay.T(4, r, p, 6) and a:
                     c("action_text_after_blanks (span differs between fa variants)")
     for p, g in lay.g.items():
-        if not p or p[0] > 4 or not layout_text(g):
+        if not p or p[0] > 5 or not layout_text(g):
             continue
         c("gap")
         if g == "":
@@ -937,8 +1257,8 @@ def diff_sections(a, b):
 
 def describe(ag, lay):
     """the pair, readable, for reports"""
-    return {"decls": [list(x) for x in ag["decls"]],
-            "rules": [[n, ps] for n, ps in ag["rules"]],
+    return {"kind": ag["kind"], "decls": [list(x) for x in ag["decls"]], "programs": ag["programs"],
+            "rules": [[n, ps, ty] for n, ps, ty in ag["rules"]],
             "layout": {k: {".".join(map(str, p)): v for p, v in sorted(getattr(lay, k).items())} for k in "gqtf"}}
 
 
@@ -946,6 +1266,23 @@ def describe(ag, lay):
 #  the check
 # =====================================================================================
 BATCH = 8000
+
+# The witnesses of the `..._refuted` theorems of C10/YpRoundExample.v (what the code drops or keeps although the
+# source says otherwise, OUTSIDE the hypotheses of the round trip), replayed on the implementation: the transcript must be
+# the mirror's and must show the loss.  When /repo is repaired these probes fail: the theorems then no longer describe
+# the code and the mirror (YpModel.v) has to follow the repair.
+FINDING_PROBES = [
+    ("G", " %% A -> u32: 'a' ; A -> u64: 'b' ; ", ["OK", "RULE x41 4 5 x753332 0,1"],
+     "Grmtools dialect: two blocks of rule A carry different action types; the second (u64) is dropped without error or warning"),
+    ("O", " %parse-param a : u32\n%parse-param b : u64\n%% A : 'x' ; ", ["OK", "PP x62 x753634"],
+     "%parse-param given twice: the first is overwritten without error or warning (same for %parse-generics)"),
+    ("O", "%parse-generics 'a\n%parse-generics 'b\n%%\nA: ;", ["OK", "PG x2762"],
+     "%parse-generics given twice: the first is overwritten without error or warning"),
+    ("O", "%actiontype u64 // the type\n%%\nA: ;", ["OK", "RULE x41 31 32 x753634202f2f207468652074797065 0"],
+     "a comment after a value read to the end of the line is part of the value"),
+    ("G", "%%\nA -> u64 /* why */ : ;", ["OK", "RULE x41 3 4 x753634202f2a20776879202a2f 0"],
+     "a comment between a Grmtools action type and the colon is part of the type"),
+]
 
 
 def run_part(ctx, tag="C10round"):
@@ -961,12 +1298,33 @@ def run_part(ctx, tag="C10round"):
         k = min(BATCH, n_pairs - done)
         run_batch(ctx, rng, k, fa, exe, mirror, rexe, bad, corpus() if done == 0 else ())
         done += k
+    # the refutation witnesses, on the implementation
+    plines = ["%s %s" % (k, t.encode("utf-8").hex()) for k, t, _, _ in FINDING_PROBES]
+    pimpl = core.run_lines([exe], plines)
+    pmodel = core.run_lines([mirror], [l + MODEL_FLAGS for l in plines])
+    nprobe = 0
+    for (k, t, marks, what), pl, a, m in zip(FINDING_PROBES, plines, pimpl, pmodel):
+        secs = strip_bad(a).split(" # ")
+        ctx.case("F " + pl, True, {"text": t, "what": what})
+        ctx.count("refutation_witness_replayed")
+        if strip_bad(a) != m or any(x not in secs for x in marks):
+            nprobe += 1
+            ctx.violation({"what": "a refutation witness of C10/YpRoundExample.v no longer shows on the implementation what the "
+                                   "theorem says (%s): the `_refuted` theorems / the mirror do not describe this code any more" % what,
+                           "kind": k, "text": t, "impl": a[:1500], "mirror": m[:1500], "expected_sections": marks,
+                           "replay_cmd": "echo '%s' | .work/target/release/c10yp" % pl}, no_input=True)
+    ctx.oblige(nprobe == 0, "refutation witnesses replay on the implementation")
     ctx.oblige(bad["print"] == 0, "Coq printer = Python printer")
     ctx.oblige(bad["impl"] == 0, "implementation builds ast_of on print")
     ctx.oblige(bad["thm"] == 0, "mirror builds ast_of on print (the theorem's statement, evaluated)")
     ctx.coverage["rule"] = (
-        "a corpus (one grammar with every construct under %d uniform layouts x 3 spelling preferences, the minimal grammar), then %d random (abstract grammar, layout) pairs inside wf_agram/wf_layout (asserted by an independent Python implementation of "
-        "the conditions): all 7 declaration kinds in random order, several %%token/precedence/%%avoid_insert lines, repeated "
+        "a corpus (per dialect one grammar with every construct under %d uniform layouts x 3 spelling preferences, the minimal grammar), then %d random (dialect, abstract grammar, layout) triples inside wf_agram k/wf_layout (asserted by an independent Python implementation of "
+        "the conditions): the three dialects (Original, Grmtools with a `-> type` on every rule block: types with '::', generics, quotes, "
+        "newlines, comment text, multi-byte, empty, Unicode blanks before the colon; Eco with %%implicit_tokens lines), all declaration kinds "
+        "of the dialect in random order (%%actiontype / %%parse-param / %%parse-generics values kept verbatim to the end of the line, "
+        "%%parse-param names with '::', %%expect-unused lists of bare rule names and quoted tokens), a programs section after a second "
+        "'%%%%' (empty, with '%%%%', comment-like text), // comments inside the newline-free gaps after directive keywords, "
+        "several %%token/precedence/%%avoid_insert lines, repeated "
         "%%token names, rule blocks repeated under one name, dotted rule names, rule names that are also token names, empty "
         "productions with/without %%empty, %%prec (bare, undeclared), actions (empty, nested braces, newlines, multi-byte, "
         "Unicode-whitespace pads); every gap independently empty / blanks / tabs / LF, CRLF, CR / line comments / block comments "
@@ -977,6 +1335,19 @@ def run_part(ctx, tag="C10round"):
         "strings with the implementation's transcript and the extracted mirror's. non-trivial = >= 2 declarations and >= 2 "
         "productions; distinct by case line" % (len(CORPUS_GAPS), n_pairs, "true" if fa else "false"))
     ctx.coverage["pairs"] = n_pairs
+    h = ctx.hist
+    ctx.coverage["round_trip_distribution"] = {
+        "dialect": {k[8:]: v for k, v in sorted(h.items()) if k.startswith("dialect_")},
+        "declarations": {k[5:]: v for k, v in sorted(h.items()) if k.startswith("decl_")},
+        "rule_blocks_with_action_type": h.get("rule_block_with_action_type", 0),
+        "action_type_features": {k[12:]: v for k, v in sorted(h.items()) if k.startswith("action_type_")},
+        "programs_sections": h.get("programs_section", 0),
+        "keyword_gaps_with_line_comment": sum(v for k, v in h.items() if k.startswith("keyword_gap_with_line_comment")),
+        "eol_value_features": {k[10:]: v for k, v in sorted(h.items()) if k.startswith("eol_value_")},
+        "expect_unused_items": {k[14:]: v for k, v in sorted(h.items()) if k.startswith("expect_unused_")},
+        "all_declaration_kinds_of_the_dialect": h.get("all_declaration_kinds_of_the_dialect", 0),
+        "spellings": {k[10:]: v for k, v in sorted(h.items()) if k.startswith("sym_token_")},
+    }
     ctx.assumptions += [
         "code points of names, actions, values and layout are Unicode scalar values (str = list N admits others; they cannot reach a Rust &str)",
         "expected AST computed with fa = %s: /repo %s the action-span repair (ACTION_SPAN_FIXED in checks/c10_round.py)"
@@ -1005,11 +1376,11 @@ def run_batch(ctx, rng, n, fa, exe, mirror, rexe, bad, first=()):
         h, tr = out.split(" # ", 1)
         texts.append(bytes.fromhex(h[1:]).decode("utf-8"))
         expected.append(tr)
-    plines = ["O " + t.encode("utf-8").hex() for t in texts]
+    plines = ["%s %s" % (ag["kind"], t.encode("utf-8").hex()) for (ag, _), t in zip(pairs, texts)]
     impl = core.run_lines([exe], plines)
     model = core.run_lines([mirror], [l + MODEL_FLAGS for l in plines])
     # the statement for the other action-span variant (the theorem quantifies over fa): pairs with an action
-    oth = [i for i, (ag, _) in enumerate(pairs) if any(pr["action"] is not None for _, ps in ag["rules"] for pr in ps)]
+    oth = [i for i, (ag, _) in enumerate(pairs) if any(pr["action"] is not None for _, ps, _ in ag["rules"] for pr in ps)]
     oflags = " fc" + ("" if fa else " fa")
     ocoq = core.run_lines([rexe], [encode(not fa, *pairs[i]) for i in oth])
     omodel = core.run_lines([mirror], [plines[i] + oflags for i in oth])
@@ -1024,7 +1395,7 @@ def run_batch(ctx, rng, n, fa, exe, mirror, rexe, bad, first=()):
                            "replay_cmd": "echo '%s' | .work/ocaml/c10round/gvm_c10round ; echo '%s' | .work/ocaml/c10yp/gvm_c10yp"
                                          % (encode(not fa, *pairs[i]), plines[i] + oflags)}, no_input=True)
     for (ag, lay), case, text, exp, pline, a, m in zip(pairs, cases, texts, expected, plines, impl, model):
-        nprods = sum(len(ps) for _, ps in ag["rules"])
+        nprods = sum(len(ps) for _, ps, _ in ag["rules"])
         ctx.case(case, len(ag["decls"]) >= 2 and nprods >= 2, {"text": text[:400]})
         account(ctx, ag, lay, text)
         replay = "echo '%s' | .work/ocaml/c10round/gvm_c10round ; echo '%s' | .work/target/release/c10yp ; " \
@@ -1039,7 +1410,7 @@ def run_batch(ctx, rng, n, fa, exe, mirror, rexe, bad, first=()):
         # (d) the statement of the theorem, evaluated: mirror of the parser on the printed text
         if m != exp:
             bad["thm"] += 1
-            ctx.violation({"what": "ROUND-TRIP STATEMENT FALSE FOR THIS PAIR: run_case true %s KOriginal (print lay ag) (the extracted mirror) "
+            ctx.violation({"what": "ROUND-TRIP STATEMENT FALSE FOR THIS PAIR: run_case true %s k (print lay ag) (the extracted mirror) "
                                    "is not Done (TResult (ast_of lay ag) [] (warnings_of lay ag)) although wf_agram/wf_layout hold"
                                    % ("true" if fa else "false"),
                            "pair": describe(ag, lay), "text": text, "mirror": m[:3000], "expected": exp[:3000],
